@@ -110,6 +110,10 @@ def api_ops(mod):
         "shared_parse_noclass_a": lambda c: shared_of(c).xp.from_string(doc_a),
         "shared_serialize": lambda c: shared_of(c).xs.render(obj_c),
         "shared_json_noclass": lambda c: shared_of(c).jp.from_string('{"z": "k"}'),
+        # a JSON object for a field whose type has subclasses is TRIED against every candidate class under a stricter
+        # configuration; the parser is shared, so nothing of that trial may be seen by a lenient decode next to it
+        "shared_json_poly": lambda c: shared_of(c).jp.from_string('{"z": "v", "Base": {"x": 2, "y": "d"}}', mod.Other),
+        "shared_json_lenient": lambda c: shared_of(c).jp.from_string('{"x": "abc"}', mod.Base),
         # wildcard namespace matching: XmlVar.match_namespace memoises per field, and the field metadata is shared
         "parse_wild": lambda c: XmlParser(context=c).from_string(
             '<w:WildOther xmlns:w="urn:wild" xmlns:e="urn:ext"><w:head>h</w:head><e:ext>t</e:ext><e:ext>u</e:ext></w:WildOther>', WildOther),
@@ -158,7 +162,7 @@ def explore_api(ctx, ms, scheduler, n_threads, combos, max_pre, limit, traces):
                             {"combo": combo, "warm": warm, "choices": [d.chosen for d in r.decisions], "trace": r.trace},
                         )
                 # record for trace validation (the wildcard class lives outside the universe of Trace_ContextT)
-                if "parse_wild" in combo:
+                if "parse_wild" in combo or "shared_json_poly" in combo or "shared_json_lenient" in combo:
                     continue
                 r.trace = [(t, lab) for t, lab in r.trace if not lab.startswith(("p_", "m_"))]
                 log = r.xctx.xv_log
@@ -385,6 +389,7 @@ def run(ctx):
     pairs = [(a, b) for i, a in enumerate(names) for b in names[i:]]
     # calls through SHARED parser / serializer instances: among themselves and against the cold-index operations
     pairs += [(a, b) for i, a in enumerate(shared) for b in shared[i:]] + [(a, b) for a in shared[:2] for b in ("parse_xsi", "find_derived")]
+    pairs += [("shared_json_poly", "shared_json_lenient"), ("shared_json_lenient", "shared_json_poly"), ("shared_json_poly", "shared_json_poly")]
     n = explore_api(ctx, ms, scheduler, 2, pairs, ctx.pick(2, 3), ctx.pick(40, 600), traces)
     triples = [("parse_xsi", "parse_noclass", "serialize"), ("parse_xsi", "find_derived", "json_noclass"),
                ("parse_noclass", "parse_noclass", "find_derived"), ("json_noclass", "find_unknown", "find_unknown")]
